@@ -73,14 +73,16 @@ impl StreamingQueryExecutor {
     pub async fn execute(self, sql: &str) -> Result<mpsc::Receiver<Result<RecordBatch>>> {
         let (tx, rx) = mpsc::channel(100);
 
-        // Extract pruning inputs. If metrics table is not yet registered, bootstrap
-        // with all known chunks and retry parsing.
+        // Extract pruning inputs. If metrics table is not yet registered, or is still the
+        // start-up placeholder, bootstrap with all known chunks and retry parsing.
         let (time_range, predicates) = match (
             self.engine.extract_time_range(sql).await,
             self.engine.extract_column_predicates(sql).await,
         ) {
             (Ok(time_range), Ok(predicates)) => (time_range, predicates),
-            (Err(e), _) | (_, Err(e)) if is_table_not_found_error(&e) => {
+            (Err(e), _) | (_, Err(e))
+                if is_table_not_found_error(&e) || self.engine.metrics_table_is_placeholder() =>
+            {
                 let bootstrap_chunks = self.metadata.list_chunks().await?;
                 let bootstrap_paths: Vec<String> = bootstrap_chunks
                     .iter()
